@@ -254,6 +254,29 @@ def check_framing(specs, seed):
     for a, b in zip(back.tagList, tl.tagList):
         if not (a == b) or (a != b):
             return Res("a:tag-eq-differs", "framing:decoded-tag-not-equal-by-Tag.__eq__", {"tags": brief(tags)})
+    # the same octets once more, this time into ONE Tag object that is decoded into again and again (the documented
+    # Tag.decode(pdu) use): what a decode leaves in the object is the tag just read, nothing of the one before
+    if len(tags) > 1:
+        cp = CountingPDU(octets)
+        one = Tag()
+        for k, want in enumerate(tags):
+            try:
+                one.decode(cp)
+                got1 = shape_of(TagList([one]))[0]
+                out = PDUData()
+                one.encode(out)
+                again = bytes(out.pduData)
+            except StepBudget:
+                return Res("a:no-termination", "framing:decoder-does-not-terminate", {"tags": brief(tags)})
+            except Exception as err:
+                return Res("a:reused-tag-raises", "framing:reused-tag-object-raises-%s" % type(err).__name__,
+                           {"tags": brief(tags), "position": k, "error": repr(err)})
+            if got1 != want or again != R.encode_tags([want]):
+                return Res("a:reused-tag-differs", "framing:tag-object-decoded-into-again-keeps-something-of-the-previous-tag",
+                           {"tags": brief(tags), "position": k, "decoded": brief([got1]) if isinstance(got1, tuple) else repr(got1),
+                            "re-encoded": again[:16], "reference": R.encode_tags([want])[:16]})
+        if len(cp.pduData) != 0:
+            return Res("a:octets-left", "framing:octets-left-after-decode", {"tags": brief(tags), "left": len(cp.pduData)})
     nmax = max([len(t[3]) for t in tags] or [0])
     return Res("a:ok:%d-tags:%s" % (len(tags), "len<5" if nmax < 5 else "len5..253" if nmax <= 253 else
                                      "len254..65535" if nmax <= 65535 else "len>65535"))
